@@ -1354,3 +1354,49 @@ def _as_written(ctx, fi, e, seen):
         if v == 'undecided':
             worst = (v, why)
     return worst
+
+
+# ---------------------------------------------------------------------------------------------
+@rule('R135', 'the instance triple of a reified node carries the same concept role that the transformations and the layout recognise instance triples by')
+def r135(ctx: Ctx) -> RuleReport:
+    rep = RuleReport('R135', r135.title, floor=2)
+    # what do the consumers compare with?
+    consumers = []
+    for modname in ('penman.transform', 'penman.layout', 'penman.graph'):
+        m = ctx.repo.module(modname)
+        for f in m.all_funcs:
+            for n in walk_local(f.node):
+                if isinstance(n, ast.Compare) and len(n.ops) == 1 and isinstance(n.ops[0], (ast.Eq, ast.NotEq)):
+                    sides = [norm(n.left), norm(n.comparators[0])]
+                    if 'CONCEPT_ROLE' in sides:
+                        consumers.append(f.fq)
+    by_constant = len(consumers)
+    rep.analysed['comparisons_with_CONCEPT_ROLE_in_transform_layout_graph'] = by_constant
+    rf = ctx.repo.func(M, 'Model.reify')
+    for r in _ret_stmts(rf):
+        v = r.value
+        if isinstance(v, ast.Tuple) and len(v.elts) == 3 and all(isinstance(e, ast.Tuple) and len(e.elts) == 3 for e in v.elts):
+            role = v.elts[1].elts[1]
+            key = f'{rf.fq}: the new node\'s concept triple is (var, CONCEPT_ROLE, concept)'
+            if norm(role) == 'CONCEPT_ROLE':
+                rep.ok(key, rf.loc(r))
+            elif isinstance(role, ast.Attribute) and norm(role.value) == 'self' and by_constant:
+                rep.violation(key, rf.loc(r), f'the role is `{norm(role)}`, a setting of the model, while {by_constant} comparisons in transform / layout / graph (e.g. in '
+                              f'{sorted(set(consumers))[:3]}) recognise an instance triple by the constant CONCEPT_ROLE: for a model with another concept role the reified node has '
+                              f'no instance triple in their eyes - it is never dereified again, and it is laid out as a node without concept')
+            else:
+                rep.undecided(key, rf.loc(r), norm(role))
+    df = ctx.repo.func(M, 'Model.dereify')
+    tp = df.positional[1] if len(df.positional) > 1 else 'instance_triple'
+    for n in walk_local(df.node):
+        if isinstance(n, ast.Compare) and len(n.ops) == 1 and isinstance(n.ops[0], (ast.Eq, ast.NotEq)) and norm(n.left) == f'{tp}[1]':
+            other = n.comparators[0]
+            key = f'{df.fq}: `{norm(n)}` recognises the instance triple by CONCEPT_ROLE'
+            if norm(other) == 'CONCEPT_ROLE':
+                rep.ok(key, df.loc(n))
+            elif isinstance(other, ast.Attribute) and norm(other.value) == 'self' and by_constant:
+                rep.violation(key, df.loc(n), f'the instance triple is recognised by `{norm(other)}` here and by the constant CONCEPT_ROLE in the {by_constant} comparisons of transform / '
+                              f'layout / graph: under a model with another concept role the triples that _dereify_agenda collects as instance triples are refused with ValueError')
+            else:
+                rep.undecided(key, df.loc(n), norm(other))
+    return rep
